@@ -31,6 +31,8 @@ AFFIXES = [
     ("a\u2028b\U0001F600", ""),
     ("\\", "\\"),
     ("ab " * 21, " cd"),
+    ("x" * 63, ""),
+    ("x" * 61 + " z", "z"),
 ]
 
 
